@@ -18,6 +18,13 @@ AsOrder(p) == [i \in 1..Len(p) |-> IF p[i] = 0 THEN 1 ELSE p[i]]
 Result(G, p) == LET a == Analyse(G, AsRepaired, AsOrder(p)) IN <<a.edges, a.leftrec>>
 Sensitive(G) == LET n == Len(G.rules)  os == Orders(n) IN
                 Cardinality({Result(G, p) : p \in os}) > 1
+(* the analysis as it was before the repair of F28 (every reference visited the rule again, cut short at a rule being  *)
+(* visited): the grammars that were order-sensitive THEN are the adversarial cases for any change that makes the order *)
+(* matter again                                                                                                        *)
+Old == INSTANCE LeftRecVisited
+OldResult(G, p) == LET a == Old!Analyse(G, Old!AsRepaired, AsOrder(p)) IN <<a.edges, a.leftrec>>
+Adversarial(G) == LET n == Len(G.rules)  os == Orders(n) IN
+                  Cardinality({OldResult(G, p) : p \in os}) > 1
 (* the repaired code: sorted names = R1..Rn then S *)
 Fixed(G) == Result(G, [i \in 1..(Len(G.rules)+1) |-> IF i <= Len(G.rules) THEN i ELSE 0])
 
@@ -28,6 +35,7 @@ Next == /\ k <= Len(Groups)
         /\ LET s == Sensitive(Groups[k]) IN
            /\ sens' = sens + (IF s THEN 1 ELSE 0)
            /\ (s => PrintT("SENS " \o ToJson([gi |-> Groups[k].gi, leftrec |-> Fixed(Groups[k])[2] # {}])))
+           /\ (Adversarial(Groups[k]) => PrintT("ADV " \o ToJson([gi |-> Groups[k].gi])))
         /\ k' = k + 1
 Spec == Init /\ [][Next]_vars
 Accepted == (k > Len(Groups)) => PrintT("DONE " \o ToJson([n |-> Len(Groups), sens |-> sens]))
